@@ -267,18 +267,36 @@ def check_reader_provenance(cfg, w, rep, lf, b, blk, t, rtypes):
     check_verify_loop(cfg, w, rep, lf, recv_open=opens)
 
 
-def check_verify_loop(cfg, w, rep, lf, recv_open):
+def check_verify_loop(cfg, w, rep, lf, recv_open, _depth=0, _key=None):
     """All reads on the checked reader happen in a loop whose only exit is `read == 0`."""
     prog = w.prog
     body = lf.body
     cfgr = prog.cfg(body)
-    key = fn_key(lf)
+    key = _key or fn_key(lf)
     reads = []
     for b, blk, t in prog.call_sites(lf):
         if b is not body or t.callee is None:
             continue
         if re.search(r"(std::io::Read::read|AsyncReadExt::read)$", t.callee.path):
             reads.append((blk, t))
+    if not reads and _depth < 2:
+        # the drain loop may live in a private helper that receives the reader by `&mut`
+        helpers = []
+        for b, blk, t, g in prog.local_calls(lf):
+            if b is not body or g.outer.reachable:
+                continue
+            for a, ty in zip(t.args, t.j.get("arg_tys", [])):
+                if ty.startswith("&mut ") and any(rt in ty for rt in ("Reader", "AsyncReader")):
+                    helpers.append((blk, t, g))
+        if len(helpers) == 1:
+            hblk, ht, hg = helpers[0]
+            # the helper's own success must be required (`?`) before the check
+            def is_helper(o, ht=ht):
+                return o.kind == "call" and o.term is ht and o.path in AWAIT_PATHS
+            gts = try_gates(prog, body, is_helper)
+            chk_blocks = [blk.i for b, blk, t, g in prog.local_calls(lf) if b is body and g.outer.name == "check"]
+            if gts and not unreachable_without(prog, body, gts, chk_blocks):
+                return check_verify_loop(cfg, w, rep, hg, recv_open, _depth + 1, key)
     if not reads:
         rep.violation("R2-loop:%s" % key, "`%s` checks a reader it never reads from" % short(lf.path),
                       loc=body.loc(), config=cfg, rule="R2-verify-loop")
